@@ -44,6 +44,14 @@ for _p in ("C01", "C02", "C03"):
             "thorough": ["--oracle=" + _p, "--set=light", "--k=1", "--t=1", "--c=1", "--w=1", "--budget=300"]},
       what="same harness: timer deviations (a timeout firing although threads are runnable), spurious weak-CAS failures and spurious wake-ups, with at most one preemption; oracle " + _p,
       design_ref="5/" + _p)
+    # the property's predicates over the configurations that were written to stress the OTHER two properties
+    # (a failing exporter, flushers + shutdown racers, destruction for C01; B == Q, gates, slow exporters for C03; ...)
+    _others = ",".join(q for q in ("C01", "C02", "C03") if q != _p)
+    H("batch_" + _p.lower() + "_x", _p, "sched", ["harness/batch_harness.cc"], sdk=BATCH_SDK,
+      args={"quick": ["--oracle=" + _p, "--cfgset=" + _others, "--set=light", "--k=1", "--budget=60"],
+            "thorough": ["--oracle=" + _p, "--cfgset=" + _others, "--set=light", "--k=2", "--t=0", "--c=0", "--budget=400"]},
+      what="same harness: the predicates of " + _p + " judged on the configuration sets of " + _others + " (every predicate holds for every configuration)",
+      design_ref="5/" + _p)
 H("batch_c02_heavy", "C02", "sched", ["harness/batch_harness.cc"], sdk=BATCH_SDK,
   args={"quick": ["--oracle=C02", "--set=heavy", "--k=1", "--budget=40"], "thorough": ["--oracle=C02", "--set=heavy", "--k=2", "--t=1", "--c=0", "--budget=400"]},
   what="the configurations of the batch harness with the largest state spaces (two concurrent flushers, flushers + shutdown callers), explored with a smaller preemption bound",
